@@ -263,6 +263,10 @@ def opWorld (st : St) (op : String) (a : KV) : St × String :=
   let w := st.world
   match op with
   | "w.new" => let (w, s) := wNew a; ({ st with world := w }, s)
+  | "w.attach" =>
+    let (f, r) := w.fan.attach indef (parseFloatMap (a.str "data" "nil"))
+    let w := { w with fan := f }
+    ({ st with world := w }, (match r with | .ok _ => "ok " | _ => "err ") ++ worldState w)
   | "w.dev" => let w := { w with dev := applyDev w.dev a }; ({ st with world := w }, "ok " ++ worldState w)
   | "w.cycle" =>
     let (w', r, o) := updateFanSpeed indef w (parseCurveRes (a.str "curve" "0")) (a.int "now" 0)
